@@ -93,6 +93,9 @@ def generate(unit_name, repo):
     return u
 
 
+DEFAULT_RLIMIT = 30   # Verus' default is 10; units that need more than ~1/3 of this are split (DESIGN.md section 7)
+
+
 def run_unit(unit_name, repo='/repo', rlimit=None, twins=True, extra_args=(), tag=''):
     res = UnitResult(unit_name)
     t0 = time.time()
@@ -117,8 +120,7 @@ def run_unit(unit_name, repo='/repo', rlimit=None, twins=True, extra_args=(), ta
         return res
     cmd = ['verus', path, '--error-format=json', '--output-json', '--time', '--multiple-errors', '20',
            '--triggers-mode', 'silent']
-    if rlimit:
-        cmd += ['--rlimit', str(rlimit)]
+    cmd += ['--rlimit', str(rlimit or DEFAULT_RLIMIT)]
     cmd += list(extra_args)
     res.verus_cmd = ' '.join(cmd)
     env = dict(os.environ)
